@@ -174,6 +174,7 @@ func genCase(t *rapid.T) ax.Case {
 	if c.Affine() {
 		c.GapOpen = rapid.IntRange(-6, 0).Draw(t, "open")
 	}
+	ax.GenUsage(t, &c, pool, func(t *rapid.T) ax.MatSpec { return genMat(t, false) })
 	return c
 }
 
@@ -185,12 +186,13 @@ func classes(c ax.Case) []string {
 	if c.QLetters {
 		l = append(l, "qletters")
 	}
+	l = append(l, c.UsageClasses()...)
 	return l
 }
 
 func TestRandom(t *testing.T) {
 	vlib.Run(t, vlib.Prop[ax.Case]{Name: "random-pairs", Checks: 6000, Thorough: 320000, Gen: genCase, Check: check, Classes: classes,
-		MinFrac: map[string]float64{"NWAffine": 0.08, "SWAffine": 0.08, "FittedAffine": 0.08, "Fitted": 0.08}})
+		MinFrac: map[string]float64{"NWAffine": 0.08, "SWAffine": 0.08, "FittedAffine": 0.08, "Fitted": 0.08, "matrix-larger-than-alphabet": 0.1, "matrix-object-reused-after-edit-in-place": 0.1}})
 }
 
 // ---- bounded-exhaustive: all pairs of short sequences over 2..3 letters x a panel of matrices ------------
